@@ -194,7 +194,9 @@ def generated : Facts :=
 /-- what the property requires of the mapping (the SPEC column of the driver): the three
     condition-variable calls reach `pthread_cond_wait / signal / broadcast` with the handle of the
     cond object, `wait` passes the very pointer `p_mutex_lock` hands to `pthread_mutex_lock`,
-    results are TRUE exactly for native 0.  Layouts and the mutex side are taken as they are. -/
+    results are TRUE exactly for native 0; constructors return NULL and release the block when the
+    native init fails; destructors always release the block.  Layouts and the lock/unlock side are
+    taken as they are. -/
 def specOf (f : Facts) : Facts :=
   { f with
     wait := { cfun := "p_cond_variable_wait", nullChecks := ["cond", "mutex"], native := .cond_wait,
@@ -202,7 +204,14 @@ def specOf (f : Facts) : Facts :=
     signal := { cfun := "p_cond_variable_signal", nullChecks := ["cond"], native := .cond_signal,
                 args := [.field "cond" "hdl"], trueIffZero := true },
     broadcast := { cfun := "p_cond_variable_broadcast", nullChecks := ["cond"], native := .cond_broadcast,
-                   args := [.field "cond" "hdl"], trueIffZero := true } }
+                   args := [.field "cond" "hdl"], trueIffZero := true },
+    -- constructors / destructors: NULL on any failure, nothing leaked, the block always released
+    condNew := { f.condNew with native := .cond_init, allocSizeOfOwnType := true, nullOnAllocFail := true,
+                                freesOnInitFail := true, nullOnInitFail := true },
+    mutexNew := { f.mutexNew with native := .mutex_init, allocSizeOfOwnType := true, nullOnAllocFail := true,
+                                  freesOnInitFail := true, nullOnInitFail := true },
+    condFree := { f.condFree with native := .cond_destroy, nullChecks := ["cond"], freesAlways := true },
+    mutexFree := { f.mutexFree with native := .mutex_destroy, nullChecks := ["mutex"], freesAlways := true } }
 
 /-- result of a `pboolean` wrapper: `none` = the translator did not understand the mapping -/
 structure BoolRes where
